@@ -1,61 +1,139 @@
 """C08 - tile-shape exploration prunes without losing any Pareto-optimal choice."""
 import itertools
 import json
+import operator
 import random
 
 from ..gen import specs as gs
-from .c07 import template_nodes
 
 ID = "C08"
 LEVEL = "exploration"
 CHUNK = 1
-CASE_TIMEOUT = 1500
-REQUIRED_COUNTERS = ["templates_compared", "exhaustive_assignments_evaluated"]
+CASE_TIMEOUT = 2400
+REQUIRED_COUNTERS = ["templates_compared", "exhaustive_assignments_evaluated", "templates_with_partial_pruning_compared"]
 RULE = ("templates of single-Einsum specs and of the first/last Einsum of 2-Einsum specs (so that fused-loop symbols "
         "exist), metrics ENERGY / LATENCY / EDP / ENERGY|LATENCY, finite and infinite memories, zero tolerance, perfect "
-        "factorisation; wrappers on _make_tile_shapes / run_model / get_tile_shape_choices record, per template, the "
-        "symbolic formulas, the fused (kept) symbols and the frame the pruned enumeration produced (inputs are snapshotted "
-        "at call time). The reference enumerates EVERY perfectly factorising assignment of the template's tile-shape "
-        "symbols, evaluates the recorded formulas (compiled as the code does), keeps the valid ones (every usage formula "
-        "<= 1) and Pareto-filters objective and reservation columns within equal fused-loop tile shapes with the O(n^2) "
-        "reference filter; the frame is filtered the same way; the two sets of vectors must be equal. Templates with more "
-        "than 4000 assignments are skipped and counted. non-trivial = template with >= 2 symbols and an exhaustive front "
-        "smaller than the valid set; distinct = (template, metrics)")
-ASSUMPTIONS = ["faithfulness of the recorded formulas is C07's business", "min_usage (try-best fallback), loop_bounds, "
-               "max_fused_loops limits and imperfect factorisation are not generated here",
-               "float32 tolerance 2^-16 when matching vectors"]
-TECHNIQUE = "runtime monitoring: exhaustive divisor-chain enumeration over recorded template formulas as reference for the pruned enumeration's output"
+        "factorisation; three classes: small bounds, LARGE bounds (24..72: templates with >= 1000 partial assignments, "
+        "the threshold above which the enumeration prunes partially enumerated assignments symbolically) and SPATIAL "
+        "(a Container fanout with loop_bounds incl. product>= / >= forms). Wrappers on _make_tile_shapes / run_model / "
+        "get_tile_shape_choices record, per template, the symbolic formulas, the fused (kept) symbols, the loop-count "
+        "limits and the frame the pruned enumeration produced (snapshotted at call time). The reference enumerates EVERY "
+        "perfectly factorising assignment of the template's tile-shape symbols (vectorised), evaluates the recorded "
+        "formulas compiled as the code does, keeps the valid ones (usage formulas <= 1, spatial fanout, the spec's "
+        "loop_bounds evaluated on the spatial loops, fused-loop limits) and compares with the frame inside every group of "
+        "equal fused-loop tile shapes: every valid assignment must be weakly dominated by a frame row, and no frame row "
+        "may be strictly dominated by a valid assignment (together: equal Pareto fronts). Templates above 3e6 assignments "
+        "are skipped and counted. non-trivial = template with >= 2 symbols and a front smaller than the valid set; "
+        "distinct = (template, metrics)")
+ASSUMPTIONS = ["faithfulness of the recorded formulas is C07's business",
+               "objective vector = the Total columns plus the usage formula of every memory tracked as an objective "
+               "(the granularity at which tile-shape exploration prunes)",
+               "min_usage (try-best fallback) and imperfect factorisation are not generated here",
+               "float32 formulas are evaluated by the same compiled functions on both sides; vectors compared at 1e-6 relative"]
+TECHNIQUE = "runtime monitoring: exhaustive (vectorised) divisor-chain enumeration over recorded template formulas as reference for the pruned enumeration's output"
+
+LARGE = [24, 36, 48, 60, 72]
 
 
 def gen_cases(tier, seed):
     rnd = random.Random(f"C08-{seed}")
-    n = 24 if tier == "quick" else 300
+    n = 30 if tier == "quick" else 320
     cases = []
     for i in range(n):
-        wk = rnd.choice(["mm1", "mm1", "mv1", "chain2", "mvchain2"])
-        d = gs.gen_spec(rnd, wk, levels=2 if wk == "chain2" else rnd.choice([2, 2, 3]), size_class=rnd.choice(["inf", "generous", "tight", "tight"]))
-        if wk in ("mm1", "mv1"):
+        cls = ["small", "small", "large", "spatial", "small", "large"][i % 6]
+        if cls == "small":
+            wk = rnd.choice(["mm1", "mm1", "mv1", "chain2", "mvchain2"])
+            d = gs.gen_spec(rnd, wk, levels=2 if wk == "chain2" else rnd.choice([2, 2, 3]), size_class=rnd.choice(["inf", "generous", "tight", "tight"]))
+            if wk in ("mm1", "mv1"):
+                for rv in d["workload"]["ranks"]:
+                    d["workload"]["ranks"][rv] = rnd.choice([4, 6, 8, 9, 12, 2, 3])
+        elif cls == "large":
+            wk = rnd.choice(["mm1", "mv1", "mm1"])
+            d = gs.gen_spec(rnd, wk, levels=2, size_class=rnd.choice(["inf", "tight", "tight"]))
             for rv in d["workload"]["ranks"]:
-                d["workload"]["ranks"][rv] = rnd.choice([4, 6, 8, 9, 12, 2, 3])
-        cases.append({"class": wk + "/" + d["arch"]["size_class"], "desc": d,
+                d["workload"]["ranks"][rv] = rnd.choice(LARGE)
+            if d["arch"]["size_class"] == "tight":
+                sizes = sorted(gs.tensor_sizes(d["workload"]).values())
+                d["arch"]["mems"][1]["size"] = rnd.randint(max(8, sizes[0] // 8), max(16, sizes[-1])) * d["workload"]["bits"]
+        else:
+            wk = "mm1"
+            d = gs.gen_spec(rnd, wk, levels=2, size_class=rnd.choice(["inf", "tight"]))
+            for rv in d["workload"]["ranks"]:
+                d["workload"]["ranks"][rv] = rnd.choice([8, 12, 16, 24])
+            rvs = sorted(d["workload"]["ranks"])
+            sp = {"name": "X", "fanout": rnd.choice([4, 6, 8])}
+            kind = rnd.choice(["prod_ge", "ge", "le", "prod_le", "only"])
+            a_, b_ = rnd.sample(rvs, 2)
+            if kind == "prod_ge":
+                sp["loop_bounds"] = [{"expression": f"{a_} | {b_}", "operator": "product>=", "value": rnd.choice([2, 4])}]
+            elif kind == "ge":
+                sp["loop_bounds"] = [{"expression": a_, "operator": ">=", "value": 2}]
+            elif kind == "le":
+                sp["loop_bounds"] = [{"expression": a_, "operator": "<=", "value": 2}]
+            elif kind == "prod_le":
+                sp["loop_bounds"] = [{"expression": f"{a_} | {b_}", "operator": "product<=", "value": rnd.choice([2, 4])}]
+            else:
+                sp["loop_bounds"] = [{"expression": "~" + a_, "operator": "==", "value": 1}]
+            sp2 = None
+            if rnd.random() < 0.5:
+                sp2 = {"name": "Y", "fanout": rnd.choice([2, 4])}
+            d["arch"]["mems"].append({"kind": "Container", "name": "PE", "spatial": [sp] + ([sp2] if sp2 else [])})
+            if d["arch"]["size_class"] == "tight":
+                sizes = sorted(gs.tensor_sizes(d["workload"]).values())
+                d["arch"]["mems"][1]["size"] = rnd.randint(max(8, sizes[0] // 4), max(16, sizes[-1])) * d["workload"]["bits"]
+        cases.append({"class": cls + "/" + wk, "desc": d,
                       "metrics": rnd.choice(["ENERGY", "LATENCY", "ENERGY_DELAY_PRODUCT", "ENERGY|LATENCY"]), "seed": rnd.randrange(2**31)})
     return cases
 
 
-def chains(tmpl, ranks, fixed_last=True):
+def template_nodes(mapping):
+    out = []
+    for n in mapping.nodes:
+        k = type(n).__name__
+        if k == "Reservation":
+            continue
+        if k in ("Storage", "Toll"):
+            out.append({"t": "S", "tensors": [str(x) for x in n.tensors], "comp": str(n.component)})
+        elif k in ("Temporal", "Spatial"):
+            ts = n.tile_shape
+            nd = {"t": "T" if k == "Temporal" else "P", "rv": str(n.rank_variable), "tile": (int(ts) if _is_num(ts) else str(ts))}
+            if k == "Spatial":
+                nd["name"], nd["comp"] = str(n.name), str(n.component)
+            if getattr(n, "initial_tile_shape", None) is not None and not _is_num(getattr(n, "initial_tile_shape")):
+                nd["initial"] = str(n.initial_tile_shape)
+            out.append(nd)
+        elif k == "Compute":
+            out.append({"t": "C", "einsum": str(n.einsum), "comp": str(n.component)})
+        else:
+            out.append({"t": "?", "kind": k})
+    return out
+
+
+def _is_num(x):
+    try:
+        if hasattr(x, "free_symbols"):
+            return not x.free_symbols
+        float(x)
+        return True
+    except Exception:
+        return False
+
+
+def chain_options(tmpl, ranks):
+    """Per rank variable: list of assignments [(symbol, value), ...] of its symbolic loops (outer -> inner)."""
     per_rv = {}
     for n in tmpl:
-        if n["t"] == "T":
+        if n["t"] in ("T", "P"):
             per_rv.setdefault(n["rv"], []).append(n["tile"])
     options = []
     for rv, tiles in per_rv.items():
         def rec(i, cur, acc):
             if i == len(tiles):
-                yield list(acc)
+                yield tuple(acc)
                 return
             t = tiles[i]
             if not isinstance(t, str):
-                if cur % t == 0 and t <= cur:
+                if t <= cur and cur % t == 0:
                     yield from rec(i + 1, t, acc)
                 return
             for dd in range(1, cur + 1):
@@ -70,8 +148,8 @@ def chains(tmpl, ranks, fixed_last=True):
 
 def run_case(case):
     import numpy as np
+    import sympy
     from .. import harness as H
-    from ..ref.pareto import front
     from accelforge.mapper.FFM._make_pmappings.make_pmappings_from_templates import make_tile_shapes as mts
     from accelforge.util._mathfuncs import NUMPY_FLOAT_TYPE
     d, metrics = case["desc"], case["metrics"]
@@ -91,7 +169,6 @@ def run_case(case):
     def choices_w(*a, **k):
         cur["keep"] = [str(s) for s in (k.get("keep_symbols") or ())]
         cur["loop_groups"] = [(float(lim), [str(x) for x in grp]) for lim, grp in (k.get("max_loop_check_groups") or ())]
-        cur["n_objectives"] = len(k.get("objectives") or (a[0] if a else ()))
         return orig_choices(*a, **k)
 
     def inner_w(job):
@@ -110,32 +187,36 @@ def run_case(case):
     mts._make_tile_shapes, mts.run_model, mts.get_tile_shape_choices = inner_w, run_model_w, choices_w
     try:
         try:
-            H.run_mapper(d, metrics)
+            H.run_mapper(d, metrics, timeout=600)
         except H.NoMapping:
             pass
     finally:
         mts._make_tile_shapes, mts.run_model, mts.get_tile_shape_choices = orig_inner, orig_run, orig_choices
     bump("templates_recorded", len(recorded))
     rnd.shuffle(recorded)
-    sample = None
-    tol = 2.0 ** -16
-
-    def near(x, y):
-        return all(abs(p - q) <= tol * max(abs(p), abs(q)) + 1e-7 for p, q in zip(x, y))
-    for rec in recorded[:30]:
-        symbols = rec["symbols"]
-        if not symbols or any(n["t"] == "?" for n in rec["tmpl"]):
+    # prefer templates with many assignments (those exercise partial pruning), keep some small ones
+    sized = []
+    for rec in recorded:
+        if not rec["symbols"] or any(n["t"] == "?" or "initial" in n for n in rec["tmpl"]):
             continue
         ranks = {str(k): int(v) for k, v in rec["ranks"].items()}
-        total, options = chains(rec["tmpl"], ranks)
-        if total > 4000:
-            bump("templates_skipped_over_budget")
+        total, options = chain_options(rec["tmpl"], ranks)
+        sized.append((total, rec, ranks, options))
+    sized.sort(key=lambda x: -x[0])
+    chosen = [s for s in sized if s[0] <= 3_000_000][:12] + [s for s in sized if s[0] < 1000][:14]
+    skipped = sum(1 for s in sized if s[0] > 3_000_000)
+    if skipped:
+        bump("templates_skipped_over_budget", skipped)
+    sample = None
+    seen_t = set()
+    spatial_specs = {(m["name"], sp["name"]): sp for m in d["arch"]["mems"] for sp in (m.get("spatial") or [])}
+    for total, rec, ranks, options in chosen:
+        if id(rec) in seen_t or total == 0:
             continue
-        import sympy
+        seen_t.add(id(rec))
+        symbols = rec["symbols"]
+        names = [s.name for s in symbols]
         df = rec["df"]
-        # objective vector: the Total columns the frame carries plus, per memory that is tracked as an objective, its
-        # usage formula (the granularity at which tile-shape exploration itself prunes; reservations of memories
-        # tracked for validity only are no objective of this template's filter)
         cols = [c for c in df.columns if c.startswith("Total" + H.SEP)]
         src = {}
         for c in cols:
@@ -156,95 +237,139 @@ def run_case(case):
         except Exception as ex:
             bump("compile_failed:" + type(ex).__name__)
             continue
-        names = [s.name for s in symbols]
-        asgs = [dict(x for part in c for x in part) for c in itertools.product(*options)]
-        asgs = [a for a in asgs if set(a) == set(names)]
-        if not asgs:
+        # ---- all assignments, vectorised
+        sym_cols = {}
+        idx = np.indices([len(o) for o in options]).reshape(len(options), -1)
+        for oi, opts in enumerate(options):
+            if not opts or not opts[0]:
+                continue
+            for pos in range(len(opts[0])):
+                sname = opts[0][pos][0]
+                vals = np.array([o[pos][1] for o in opts], dtype=np.int64)
+                sym_cols[sname] = vals[idx[oi]]
+        if set(sym_cols) != set(names):
+            bump("templates_with_unmapped_symbols")
             continue
-        arr = np.array([[a[nm] for nm in names] for a in asgs], dtype=NUMPY_FLOAT_TYPE)
-        # enclosing size of every symbolic loop (previous loop over the same rank variable, else the bound)
-        outer_of = {}
-        last = {}
-        for n in rec["tmpl"]:
-            if n["t"] == "T":
-                if isinstance(n["tile"], str):
-                    outer_of[n["tile"]] = last.get(n["rv"], ranks[n["rv"]])
-                last[n["rv"]] = n["tile"]
+        N = idx.shape[1]
+        arr = [sym_cols[nm].astype(NUMPY_FLOAT_TYPE) for nm in names]
+
+        def ev(f):
+            return np.broadcast_to(np.asarray(f(*arr), dtype=float), (N,))
         try:
-            valid = np.ones(len(asgs), dtype=bool)
-            at_capacity = np.zeros(len(asgs), dtype=bool)
+            valid = np.ones(N, dtype=bool)
+            above_one = np.zeros(N, dtype=bool)
             for k, f in comp_valid.items():
-                v = np.broadcast_to(np.asarray(f(*arr.T), dtype=float), (len(asgs),))
+                v = ev(f)
                 valid &= v <= 1 + 1e-6
-                at_capacity |= (v > 1.0) & (v <= 1 + 1e-6)      # float32 rounding above an exact fit
-            # declared limits on the number of fused loops (a loop exists iff its tile shape differs from the enclosing one)
-            for lim, grp in rec.get("loop_groups", []):
-                grp = [g for g in grp if g in names]
-                if len(grp) <= lim:
-                    continue
-                for i, a in enumerate(asgs):
-                    nloops = 0
-                    for g in grp:
-                        o = outer_of.get(g)
-                        o = a[o] if isinstance(o, str) else o
-                        if o is not None and a[g] != o:
-                            nloops += 1
-                    if nloops > lim:
-                        valid[i] = False
-            vals = {c: np.broadcast_to(np.asarray(f(*arr.T), dtype=float), (len(asgs),)) for c, f in comp.items()}
+                above_one |= (v > 1.0) & (v <= 1 + 1e-6)
+            vals = {c: ev(f) for c, f in comp.items()}
         except Exception as ex:
             bump("formula_evaluation_failed:" + type(ex).__name__)
             continue
-        bump("exhaustive_assignments_evaluated", len(asgs))
-        keep = [k for k in rec["keep"] if k in names]
-        ex_groups, ex_groups_strict = {}, {}
-        for i, a in enumerate(asgs):
-            if valid[i]:
-                ex_groups.setdefault(tuple(a[k] for k in keep), []).append(tuple(float(vals[c][i]) for c in cols))
-                if not at_capacity[i]:
-                    ex_groups_strict.setdefault(tuple(a[k] for k in keep), []).append(tuple(float(vals[c][i]) for c in cols))
-        df_groups = {}
-        rows_arr = np.array([[float(row[nm]) for nm in names] for _, row in df.iterrows()], dtype=NUMPY_FLOAT_TYPE).reshape(len(df), len(names))
-        row_vals = {c: np.broadcast_to(np.asarray(comp[c](*rows_arr.T), dtype=float), (len(rows_arr),)) for c in cols}
-        for i, (_, row) in enumerate(df.iterrows()):
-            df_groups.setdefault(tuple(int(row[k]) for k in keep), []).append(tuple(float(row_vals[c][i]) for c in cols))
+        # enclosing size of each symbolic loop
+        outer_of, last = {}, {}
+        for n in rec["tmpl"]:
+            if n["t"] in ("T", "P"):
+                if isinstance(n["tile"], str):
+                    outer_of[n["tile"]] = last.get(n["rv"], ranks[n["rv"]])
+                last[n["rv"]] = n["tile"]
+
+        def col_of(x):
+            return sym_cols[x] if isinstance(x, str) else np.full(N, x, dtype=np.int64)
+        # fused-loop limits
+        for lim, grp in rec.get("loop_groups", []):
+            grp = [g for g in grp if g in sym_cols]
+            if len(grp) <= lim:
+                continue
+            nloops = np.zeros(N, dtype=np.int64)
+            for g in grp:
+                nloops += (col_of(outer_of[g]) != sym_cols[g]).astype(np.int64)
+            valid &= nloops <= lim
+        # the spec's loop_bounds on the spatial loops of each fanout dimension
+        per_dim, lastp = {}, {}
+        for n in rec["tmpl"]:
+            if n["t"] in ("T", "P"):
+                outer = lastp.get(n["rv"], ranks[n["rv"]])
+                if n["t"] == "P":
+                    per_dim.setdefault((n["comp"], n["name"]), []).append((n["rv"], col_of(outer) // np.maximum(col_of(n["tile"]), 1)))
+                lastp[n["rv"]] = n["tile"]
+        rvs_e = sorted({n["rv"] for n in rec["tmpl"] if n["t"] in ("T", "P")} | set(ranks))
+        ops = {"==": operator.eq, "<=": operator.le, ">=": operator.ge, "<": operator.lt, ">": operator.gt}
+        for key, loops in per_dim.items():
+            sp = spatial_specs.get(key)
+            if not sp:
+                continue
+            for lb in sp.get("loop_bounds") or []:
+                from ..ref.validator import _eval_expr
+                env_rv = {rv: frozenset([rv]) for rv in rvs_e}
+                env_rv["All"] = frozenset(rvs_e)
+                try:
+                    target = _eval_expr(lb["expression"], env_rv, frozenset(rvs_e))
+                except Exception:
+                    continue
+                bounds = [it for rv, it in loops if rv in target]
+                op = lb["operator"]
+                if op.startswith("product"):
+                    pr = np.ones(N, dtype=np.int64)
+                    for b in bounds:
+                        pr = pr * b
+                    valid &= ops[op[len("product"):]](pr, lb["value"])
+                else:
+                    for b in bounds:
+                        valid &= ops[op](b, lb["value"])
+        bump("exhaustive_assignments_evaluated", N)
         bump("templates_compared")
-        n_valid = sum(len(v) for v in ex_groups.values())
-        ex_front = {g: front(v) for g, v in ex_groups.items()}
-        df_front = {g: front(v) for g, v in df_groups.items()}
-        lost, extra = [], []
-        for g, fr in ex_front.items():
-            other = df_front.get(g, [])
-            for v in fr:
-                if not any(near(v, o) for o in other):
-                    lost.append((g, v))
-        for g, fr in df_front.items():
-            other = ex_front.get(g, [])
-            for v in fr:
-                if not any(near(v, o) for o in other):
-                    extra.append((g, v))
-        if lost or extra:
-            # is the difference explained by assignments that fill a memory EXACTLY being dropped?
-            strict_front = {g: front(v) for g, v in ex_groups_strict.items()}
-            same_as_strict = all(all(any(near(v, o) for o in df_front.get(g, [])) for v in fr) for g, fr in strict_front.items()) and \
-                all(all(any(near(v, o) for o in strict_front.get(g, [])) for v in fr) for g, fr in df_front.items())
-            if same_as_strict and at_capacity.any():
+        if total >= 1000:
+            bump("templates_with_partial_pruning_compared")
+        keep = [k for k in rec["keep"] if k in names]
+        # ---- frame rows, evaluated with the same compiled formulas
+        rows_arr = np.array([[float(row[nm]) for nm in names] for _, row in df.iterrows()], dtype=NUMPY_FLOAT_TYPE).reshape(len(df), len(names))
+        R = len(rows_arr)
+        rvals = np.stack([np.broadcast_to(np.asarray(comp[c](*rows_arr.T), dtype=float), (R,)) for c in cols], axis=1) if R else np.zeros((0, len(cols)))
+        rkeys = np.stack([rows_arr[:, names.index(k)] for k in keep], axis=1) if keep and R else np.zeros((R, 0))
+        V = np.stack([vals[c] for c in cols], axis=1)
+        K = np.stack([sym_cols[k].astype(float) for k in keep], axis=1) if keep else np.zeros((N, 0))
+        tol = 1e-6
+
+        def check(valid_mask):
+            """lost: a valid assignment not weakly dominated by any frame row of its group (the frame is not
+            Pareto-filtered yet at this point, so a dominated frame row is fine)."""
+            vi = np.nonzero(valid_mask)[0]
+            covered = np.zeros(len(vi), dtype=bool)
+            for r in range(R):
+                same = np.all(K[vi] == rkeys[r], axis=1) if keep else np.ones(len(vi), dtype=bool)
+                le = np.all(rvals[r] <= V[vi] * (1 + tol) + 1e-9, axis=1)
+                covered |= same & le
+            return int(vi[np.nonzero(~covered)[0][0]]) if (~covered).any() else None
+        # every frame row must itself be a valid assignment
+        A = np.stack([sym_cols[nm] for nm in names], axis=1)
+        valid_set = {tuple(int(x) for x in row) for row in A[valid]} if valid.sum() <= 2_000_000 else None
+        bad_row = None
+        if valid_set is not None:
+            for r in range(R):
+                if tuple(int(x) for x in rows_arr[r]) not in valid_set:
+                    bad_row = r
+                    break
+        lost_i = check(valid)
+        if lost_i is not None or bad_row is not None:
+            kind = None
+            if lost_i is not None and bad_row is None and above_one.any() and check(valid & ~above_one) is None:
                 kind = "exact_fit_dropped_by_float32_rounding"
-            elif lost and not extra:
-                kind = "lost_pareto_point"
-            elif extra and not lost:
-                # a frame point better than / unknown to the exhaustive enumeration: the reference missed something
-                kind = "frame_has_point_outside_exhaustive_front"
-            else:
-                kind = "fronts_differ"
-            viol.append({"sig": kind if kind.startswith("exact_fit") else f"{kind}:{'fused' if keep else 'unfused'}",
-                         "witness": {"einsum": rec["einsum"], "metrics": metrics, "columns": cols, "kept_symbols": keep, "lost": lost[:4], "extra": extra[:4],
-                                     "valid_assignments": n_valid, "frame_rows": len(df), "template": rec["tmpl"], "ranks": ranks}})
-        if len(symbols) >= 2 and sum(len(v) for v in ex_front.values()) < n_valid:
+            if kind is None:
+                kind = ("lost_pareto_point" if lost_i is not None else "frame_contains_invalid_assignment")
+                kind += ":" + ("fused" if keep else "unfused") + (":spatial" if per_dim else "") + (":large" if total >= 1000 else "")
+            w = {"einsum": rec["einsum"], "metrics": metrics, "columns": cols, "kept_symbols": keep, "assignments": int(N), "valid": int(valid.sum()),
+                 "frame_rows": R, "template": rec["tmpl"], "ranks": ranks}
+            if lost_i is not None:
+                w["lost"] = {"assignment": {nm: int(sym_cols[nm][lost_i]) for nm in names}, "vector": [float(x) for x in V[lost_i]]}
+            if bad_row is not None:
+                w["invalid_frame_row"] = {nm: int(rows_arr[bad_row][i]) for i, nm in enumerate(names)}
+            viol.append({"sig": kind, "witness": w})
+        nvalid = int(valid.sum())
+        if len(symbols) >= 2 and R < nvalid:
             nontriv.append(json.dumps([rec["tmpl"], metrics], sort_keys=True))
-            if sample is None:
-                sample = {"template": rec["tmpl"], "columns": cols, "valid_assignments": n_valid,
-                          "exhaustive_front_size": sum(len(v) for v in ex_front.values()), "frame_rows": len(df)}
+            if sample is None or (total >= 1000 and sample.get("assignments", 0) < 1000):
+                sample = {"template": rec["tmpl"], "columns": cols, "assignments": int(N), "valid_assignments": nvalid, "frame_rows": R}
     seen_s, keep_v = set(), []
     for v in viol:
         if v["sig"] not in seen_s:
